@@ -1371,7 +1371,10 @@ def collect_argument_writes():
             def add(node, root, attr, how):
                 rows.append({"module": m.name, "cls": fn.cls.name if fn.cls is not None else "", "func": fn.qual,
                              "param": alias[root], "via": root, "attr": attr or "<object>", "line": getattr(node, "lineno", 0),
-                             "how": how, "handler": bool(fn.cls is not None and fn.cls.name in HANDLER_CLASSES)})
+                             "how": how, "handler": bool(
+                                 fn.cls is not None and fn.outer is None
+                                 and (fn.cls.name in HANDLER_CLASSES or any(str(x).split(".")[-1] in HANDLER_CLASSES for x in fn.cls.bases))
+                                 and fn.node.name.startswith(("handle", "finalise")))})
 
             for n in nodes:
                 tg = []
